@@ -139,8 +139,11 @@ class _Proxy:
 def _map(path):
     """Relative paths live in the simulated working directory when the World has one."""
     w = CURRENT
-    if w is not None and w.sim_cwd and isinstance(path, str) and path and not path.startswith("/") and "://" not in path:
-        return w.sim_cwd + "/" + path
+    if w is not None and w.sim_cwd:
+        if isinstance(path, _os.PathLike):
+            path = _os.fspath(path)
+        if isinstance(path, str) and path and not path.startswith("/") and "://" not in path:
+            return w.sim_cwd + "/" + path
     return path
 
 
@@ -179,6 +182,17 @@ def _fstat(fd, *a, **k):
     return _os.fstat(fd, *a, **k)
 
 
+def _abspath(path):
+    return _os.path.abspath(_map(path)) if isinstance(path, str) else _os.path.abspath(path)
+
+
+def _getcwd():
+    w = CURRENT
+    if w is not None and w.sim_cwd:
+        return w.sim_cwd
+    return _os.getcwd()
+
+
 _PATH_PROXY = _Proxy(
     _os.path,
     {
@@ -186,6 +200,8 @@ _PATH_PROXY = _Proxy(
         "isdir": _route("isdir", _os.path.isdir),
         "isfile": _route("isfile", _os.path.isfile),
         "realpath": _route("realpath", _os.path.realpath),
+        "getsize": _route("getsize", _os.path.getsize),
+        "abspath": _abspath,
     },
 )
 _OS_PROXY = _Proxy(
@@ -199,6 +215,9 @@ _OS_PROXY = _Proxy(
         "remove": _route("remove", _os.remove),
         "unlink": _route("unlink", _os.unlink),
         "listdir": _route("listdir", _os.listdir),
+        "stat": _route("stat", _os.stat),
+        "lstat": _route("stat", _os.lstat),
+        "getcwd": _getcwd,
         "fstat": _fstat,
     },
 )
@@ -296,6 +315,17 @@ class World:
         stream_mod.os = _OS_PROXY
         base.os = _OS_PROXY
         utils_mod.os = _OS_PROXY
+        # any other flow.record module that (now or after an edit) imports os, and pathlib, see the simulated tree too
+        self._os_rebound = []
+        import pathlib as _pathlib
+
+        for name, mod in list(sys.modules.items()):
+            if (name.startswith("flow.record") or name == "pathlib") and mod is not None and getattr(mod, "os", None) is _REAL_OS:
+                try:
+                    mod.os = _OS_PROXY
+                    self._os_rebound.append(mod)
+                except Exception:  # noqa: BLE001
+                    pass
         stream_mod.datetime = _DT_PROXY
         gzip.time = _TIME_PROXY
         # caches that hold descriptors / classes: a run must not depend on earlier runs
@@ -328,6 +358,9 @@ class World:
         stream_mod.os = s["stream_os"]
         base.os = s["base_os"]
         utils_mod.os = s["utils_os"]
+        for mod in getattr(self, "_os_rebound", []):
+            mod.os = _REAL_OS
+        self._os_rebound = []
         stream_mod.datetime = s["stream_dt"]
         gzip.time = s["gzip_time"]
         sys.stdin = s["stdin"]
